@@ -2,6 +2,8 @@
 // Abstract view per position: up (a bar stands above), down (a bar stands below), vert (stacked-cell separator).
 // Trusted (A3): `slice.iter().map(f).collect::<String>()` applies f pointwise (map_collect_string).
 use vstd::prelude::*;
+macro_rules! html_trace { ($($t:tt)*) => {} }
+macro_rules! html_trace_quiet { ($($t:tt)*) => {} }
 verus! {
 //@export-begin
 global size_of usize == 8;
